@@ -22,7 +22,25 @@ def sim(test, quick, thorough, **kw):
     return d
 
 
+NODE_ASSUMPTIONS = [
+    "one real node inside a testing/synctest bubble, persistent state seeded through the real storage API before NewRaft (the path a restart takes); peers exist only as injected requests",
+    "requests are generated from a consistent world (sender logs satisfy Log Matching with, and contain the committed prefix of, the receiver's log) unless the property quantifies over arbitrary values",
+    "the reference models are written from the Raft paper and the property text, not from raft.go",
+    "the cluster-schedule part samples schedules; bounded domains are sampled randomly, not enumerated, unless the evidence says exhaustive",
+]
+
+
+def node(tests, quick, thorough, **kw):
+    d = {"test": "(" + "|".join(tests) + ")", "corpus_test": "TestCorpus" + tests[0][4:], "level": "exploration", "engine": "E-NODE+E-SIM", "gomaxprocs": 1,
+         "tiers": {"quick": {"shards": 16, "cases": quick, "timeout_s": 1500}, "thorough": {"shards": 16, "cases": thorough, "timeout_s": 10800}},
+         "assumptions": NODE_ASSUMPTIONS + SIM_ASSUMPTIONS[:3]}
+    d.update(kw)
+    return d
+
+
 PROPS = {
+    "C06": node(["TestC06", "TestC06Sim"], 1000, 30000),
+    "C08": node(["TestC08", "TestC08Sim"], 1000, 30000),
     "C01": sim("C01", 1500, 40000),
     "C02": sim("C02", 1000, 30000),
     "C03": sim("C03", 1500, 40000),
@@ -51,6 +69,12 @@ def simtext(what, trusted="the simulator (network, virtual clock, crash images),
 
 
 MANIFEST_TEXT = {
+    "C06": {"technique": "model-based property testing: rapid-generated AppendEntries sequences against a receiver-rule reference model on one real node, plus invariant monitors over generated cluster schedules",
+            "level_text": "Inputs part: generated worlds (truth log, follower with conflicting tail / compacted prefix) and request sequences derived from legitimate sender states, including stale, duplicate, overlapping and partial-suffix requests and every leaderCommit; after each request the decision, response term, exact resulting log (read back from disk through the real log) and the commit-index bounds are compared with the reference model. Schedules part: pairwise Log Matching on the stored logs after every step of generated cluster runs, no truncation of committed entries, commit index monotone. Random sampling of the bounded domain, not its enumeration.",
+            "level_note": "Trusted: the world generator's legitimacy rules (one leader per term, Leader Completeness), the reference model B1, the storage wrappers; for prev below a compacted boundary either answer is accepted (a node cannot verify an entry it no longer has)."},
+    "C08": {"technique": "model-based property testing: rapid-generated RequestVote/term sequences with crashes at storage writes against voter constraints on one real node, plus the same constraints over generated cluster schedules",
+            "level_text": "Inputs part: a seeded voter (or non-voter) receives generated RequestVote / AppendEntries / InstallSnapshot headers with terms around its own, time advances around the election timeout, crashes immediately before/after term/vote and log writes, graceful stops and restarts over the crash image; scenario templates make competing requests in one term likely. Oracle (across incarnations): terms never decrease in replies, Status and recovered state; at most one candidate per term receives a real vote (persisted votes and granted replies); grants respect the up-to-date restriction; a grant is preceded by the write of that vote; a prevote changes neither Status().Term nor the persisted (term, vote). Schedules part: the same constraints per node in the election-centred cluster campaigns of C02.",
+            "level_note": "Trusted: the constraint model B2 (it does not predict whether a request is ignored for stickiness, only constrains what is granted), the crash-image mechanism, the recorder's ordering."},
     "C01": simtext("Randomised, pattern-biased exploration of message orders, losses, duplicates, late replies, partitions, crashes (arbitrary instants and storage boundaries) and restarts on real nodes in virtual time; every application and every reported commit index is checked against a global index->(term,bytes) table after every step. Finds divergence when a generated schedule produces it; says nothing about schedules not generated."),
     "C02": simtext("Same simulator with election-centred patterns (scheduler-owned delivery of every vote message, duelling candidates, flaky links, crashes at term/vote writes); per-term uniqueness of leaders is checked on Status() at every quiescence point and on every AppendEntries/InstallSnapshot request sent."),
     "C03": simtext("Concurrent generated clients against the simulator; the invoke/return history is checked against the authoritative applied order (bytes, position, result, at-most-once, real-time order). Exploration of histories, not a proof of linearizability for all histories."),
